@@ -2,6 +2,7 @@ package props
 
 import (
 	"fmt"
+	"strings"
 	"testing"
 
 	"pgregory.net/rapid"
@@ -37,7 +38,47 @@ func genC05Opt(t *rapid.T, gQualified bool) C05Case {
 	if gate("c05-func-in-target") {
 		o.NoFuncInTargetIndex = true
 	}
-	return C05Case{WS: genWorkspace(t, o)}
+	ws := genWorkspace(t, o)
+	// a multi-line table constructor whose fields sit on their own, unindented or indented lines and are
+	// initialised with a variable of the same name as the key (`width = width,`), one level or nested
+	if rapid.IntRange(0, 2).Draw(t, "fieldNamedLikeValue") == 0 {
+		fi := rapid.IntRange(0, len(ws.Files)-1).Draw(t, "ctorFile")
+		names := map[string]bool{}
+		var pool []string
+		if res := reflua.Parse(ws.Files[fi].Text); res.Verdict == reflua.Valid {
+			for _, tk := range res.Tokens {
+				if tk.Kind == reflua.TName && !names[tk.Text] && tk.Text != "_G" && tk.Text != "self" {
+					names[tk.Text] = true
+					pool = append(pool, tk.Text)
+				}
+			}
+		}
+		if len(pool) > 0 {
+			ind := rapid.SampledFrom([]string{"", "", "  ", "\t"}).Draw(t, "ctorIndent")
+			var b strings.Builder
+			b.WriteString(ws.Files[fi].Text)
+			if !strings.HasSuffix(ws.Files[fi].Text, "\n") {
+				b.WriteString("\n")
+			}
+			nested := rapid.Bool().Draw(t, "ctorNested")
+			b.WriteString("local cfgt = {\n")
+			if nested {
+				b.WriteString(ind + "inner = {\n")
+			}
+			for k := rapid.IntRange(1, 3).Draw(t, "ctorFields"); k > 0; k-- {
+				n := rapid.SampledFrom(pool).Draw(t, "ctorName")
+				b.WriteString(ind + n + " = " + n + ",\n")
+			}
+			if nested {
+				b.WriteString(ind + "},\n")
+			}
+			b.WriteString("}\nprint(cfgt)\n")
+			if res := reflua.Parse(b.String()); res.Verdict == reflua.Valid {
+				ws.Files[fi].Text = b.String()
+			}
+		}
+	}
+	return C05Case{WS: ws}
 }
 
 type occQuery struct {
